@@ -107,6 +107,8 @@ structure DState where
   tick : Int := 0        -- logical clock: one tick per op
   subs : List Sub := []  -- stream `sds`, in subscription order (ids increase)
   sds  : Bool := false   -- the case is an `sds` case
+  nilca : Bool := false  -- `cache` variant: the client has no CA client (generateNewSecret fails before any request)
+  kube : Bool := false   -- `file` variant: kubelet-style ..data symlink volume
   file : Bool := false   -- the case is a `file` case (file-mounted certificates)
   fileWv : Nat := 0      -- stream `file`: version of the key/cert pair on disk
   fileRoot : Nat := 0    -- stream `file`: root on disk
@@ -145,6 +147,9 @@ def caOfToks : List String → Option CAOut
   | _ => none
 
 def stepCache (d : DState) (toks : List String) : DState × String :=
+  -- no CA client: "attempted to fetch secret, but ca client is nil" - an error, nothing else happens
+  if d.nilca && toks.head? == some "gen" then
+    (d, s!"err key=- cert=- root=none ev=- nb=- push=- | {showState d.sys.st}") else
   let now := d.tick * 1000000
   let d1 := { d with next := d.next + 1, tick := d.tick + 1 }
   let before := d.sys.st
@@ -418,11 +423,16 @@ def stepFile (d : DState) (toks : List String) : DState × String :=
   let st (x : DState) := s!"croot={rootsTok x.fileCroot} cfg={rootsTok x.sys.st.cfg} wl=- ca=0"
   match toks with
   | ["fgen", "w"] => (d, s!"ok pair={d.fileWv} ev=- | {st d}")
+  | ["fgen", "fc"] => (d, s!"ok pair={d.fileWv} ev=- | {st d}")              -- the same files as file-cert:cert~key
+  | ["fgen", "fr"] => (d, s!"ok fileroot={rootsTok [d.fileRoot]} ev=- | {st d}") -- file-root: the file as it is
   | ["fgen", "r"] =>
     let d1 := { d with fileCroot := [d.fileRoot] }
     (d1, s!"ok root={rootsTok (mergeAnchors d.sys.st.cfg [d.fileRoot])} ev=- | {st d1}")
-  | ["fwrite", "w"] => let d1 := { d with fileWv := d.fileWv + 1 }; (d1, s!"cb=1 other=0 | {st d1}")
-  | ["fwrite", "r"] => let d1 := { d with fileRoot := (d.fileRoot + 1) % 5 }; (d1, s!"cb=1 other=0 | {st d1}")
+  | ["fstress", _] => (d, "ok fstress")   -- file replacement concurrent with GenerateSecret: observed, not modelled
+  | ["fwrite", "w"] =>
+    let d1 := { d with fileWv := d.fileWv + 1 }; (d1, s!"cb=1 other={if d.kube then "*" else "0"} | {st d1}")
+  | ["fwrite", "r"] =>
+    let d1 := { d with fileRoot := (d.fileRoot + 1) % 5 }; (d1, s!"cb=1 other={if d.kube then "*" else "0"} | {st d1}")
   | ["bundle", b] =>
     let before := d.sys.st.events
     let y := seqOp d.sys d.next (.update (tokRoots b)) {}
@@ -436,7 +446,21 @@ def stepD (d : DState) (toks : List String) : DState × String :=
     match frac? rn rd, frac? jn jd with
     | some r, some J => ({ sys := Sys.init r J }, "ok")
     | _, _ => (d, "bad-op")
+  -- variants of the client that must not change its behaviour: OUTPUT_CERTS = directory of the well-known cert paths
+  -- (the output files are never read back), RSA keys, PKCS#8 keys; `nilca`: no CA client
+  | ["case", _, "cache", rn, rd, jn, jd, variant] =>
+    match frac? rn rd, frac? jn jd with
+    | some r, some J =>
+      if variant == "outdir" || variant == "rsa" || variant == "pkcs8" then ({ sys := Sys.init r J }, "ok")
+      else if variant == "nilca" then ({ sys := Sys.init r J, nilca := true }, "ok")
+      else (d, "bad-op")
+    | _, _ => (d, "bad-op")
+  | ["case", _, "citadel", rn, rd, jn, jd] =>
+    match frac? rn rd, frac? jn jd with
+    | some r, some J => ({ sys := Sys.init r J }, "ok")
+    | _, _ => (d, "bad-op")
   | ["case", _, "file"] => ({ file := true }, "ok")
+  | ["case", _, "file", "kube"] => ({ file := true, kube := true }, "ok")
   | ["case", _, "sds"] => ({ sdsInit with sds := true }, "ok")
   | "case" :: _ => ({}, "ok")
   | "rot" :: _ => (d, stepRotate toks)
